@@ -1,7 +1,7 @@
 (* Refcnt_proofs.v — the invariant of the reference-count model (Model/Refcnt.v) is inductive (step lemma in
    Refcnt_inv_proofs.v); finite support; the theorems exported by Properties_C17.v. *)
 From Coq Require Import ZArith Bool List Lia.
-From Verif Require Import Word Bits Conc Gen_consts Gen_group Gen_refcnt Refcnt Refcnt_inv_proofs.
+From Verif Require Import Word Bits Conc Gen_consts Gen_group Gen_refcnt Refcnt Refcnt_inv_proofs Refcnt_step_proofs.
 Import ListNotations.
 Local Open Scope Z_scope.
 Arguments hb k b : simpl nomatch.
@@ -9,11 +9,13 @@ Arguments hb k b : simpl nomatch.
 (* ------------------------------------------------------------------ the invariant is inductive *)
 Lemma inv_step s t e s' : Inv s -> contractb s t e = true -> gstep s t e = Some s' -> Inv s'.
 Proof.
-  intros HI Hct Hs. destruct (greg_step s t e s' HI Hct Hs) as [G' Hg']. destruct HI as (HG & HB & HT).
+  intros HI Hct Hs. destruct (greg_step s t e s' HI Hct Hs) as [G' Hg']. destruct HI as (HG & HB & HT). pose proof Hs as Hs0.
   unfold gstep in Hs. destruct (tstep (pcs s t) e) as [p'|] eqn:Hts; [|discriminate].
   destruct (effect (regs s) (priv s) (gn s t) (pcs s t) e) as [[ups g']|] eqn:Hef; [|discriminate].
   injection Hs as <-. cbn [regs priv pcs gn] in *. rewrite upd_same in Hg'.
-  assert (Wp' : wfpc p') by (eapply wf_tstep; [apply HT|exact Hts]).
+  assert (Wp' : wfpc2 p').
+  { split; [eapply wf_tstep; [apply (proj1 (proj1 (HT t)))|exact Hts]|].
+    pose proof (not_enter_retain_BE s t e _ (conj HG (conj HB HT)) Hs0) as X. cbn [pcs] in X. rewrite upd_same in X. exact X. }
   split; [exact G'|]. split.
   - intros k. unfold hf. cbn [priv pcs gn].
     set (f := fun u => held k (pcs s u) (gn s u)).
@@ -114,11 +116,11 @@ Proof.
 Qed.
 
 (* ------------------------------------------------------------------ the theorems *)
-Lemma held_all_zero p g : wfpc p -> 0 <= g ->
-  held KX p g = 0 -> held KI p g = 0 -> held KBX p g = 0 -> held KBI p g = 0 -> held KE p g = 0 -> held KDP p g = 0 ->
+Lemma held_all_zero p g : wfpc2 p -> 0 <= g ->
+  held KX p g = 0 -> held KI p g = 0 -> held KBX p g = 0 -> held KBI p g = 0 -> held KBE p g = 0 -> held KE p g = 0 -> held KDP p g = 0 ->
   held KD p g = 0 -> forall k, held k p g = 0.
 Proof.
-  intros W G HX HI HBX HBI HE HDP HD k.
+  intros [W _] G HX HI HBX HBI HBE HE HDP HD k.
   destruct p; cbn [wfpc] in W; cbn [held held0 hk hb one] in *;
     repeat match goal with c : kont |- _ => destruct c end; cbn [hk hb] in *;
     repeat match goal with H : _ /\ _ |- _ => destruct H end; b_facts;
@@ -172,10 +174,10 @@ Proof.
   pose proof (priv_nonneg s KX B); pose proof (priv_nonneg s KE B); pose proof (priv_nonneg s KD B);
   pose proof (priv_nonneg s KDP B); pose proof (priv_nonneg s KB B).
   unfold Greg, MAXC, f_OS_OBJECT_GLOBAL_REFCNT in G.
-  pose proof (priv_nonneg s KBX B); pose proof (priv_nonneg s KBI B).
+  pose proof (priv_nonneg s KBX B); pose proof (priv_nonneg s KBI B); pose proof (priv_nonneg s KBE B); pose proof (priv_nonneg s KB2 B).
   assert (P0 : priv s KX = 0 /\ priv s KI = 0 /\ priv s KE = 0 /\ priv s KDP = 0 /\ priv s KD = 0 /\
-               priv s KBX = 0 /\ priv s KBI = 0) by (unfold borrowed_ok in G; lia).
-  destruct P0 as (PX & PI & PE & PDP & PD & PBX & PBI).
+               priv s KBX = 0 /\ priv s KBI = 0 /\ priv s KBE = 0) by (unfold borrowed_ok in G; lia).
+  destruct P0 as (PX & PI & PE & PDP & PD & PBX & PBI & PBE).
   assert (HZ : forall t k, held k (pcs s t) (gn s t) = 0).
   { intros t. apply held_all_zero; try apply T; apply held_zero; assumption. }
   assert (PZ : forall k, priv s k = 0).
@@ -230,15 +232,15 @@ Proof.
   intros R Hs Ha. pose proof (reach_inv s R) as (G & B & T).
   destruct (Z.eq_dec (regs s DISP) 0) as [D0|Dn]; [unfold Greg in G; lia|exfalso].
   pose proof (no_dispose_while_held s R Dn) as Hn. cbv zeta in Hn. destruct Hn as (_ & _ & E0 & _ & _ & _ & _ & HZ).
-  specialize (HZ t). destruct (T t) as [W Hg].
+  specialize (HZ t). destruct (T t) as [[W _] Hg].
   unfold is_access in Ha. apply andb_true_iff in Ha as [Ha Hno]. apply andb_true_iff in Ha as [Ha Hnr].
   apply andb_true_iff in Ha as [_ Hnc]. apply negb_true_iff in Hno, Hnr, Hnc.
   unfold gstep in Hs. destruct (tstep (pcs s t) e) as [p'|] eqn:Hts; [|discriminate].
   destruct (effect (regs s) (priv s) (gn s t) (pcs s t) e) as [[ups g']|] eqn:Hef; [|discriminate]. clear Hs.
   unfold tstep, effect in *. rewrite Hno in *.
   pose proof (HZ KX) as ZX. pose proof (HZ KI) as ZI. pose proof (HZ KE) as ZE. pose proof (HZ KDP) as ZDP. pose proof (HZ KD) as ZD.
-  pose proof (HZ KBX) as ZBX. pose proof (HZ KBI) as ZBI.
-  destruct (pcs s t); cbn [wfpc] in W; cbn [held held0 hk one] in ZX, ZI, ZE, ZDP, ZD, ZBX, ZBI;
+  pose proof (HZ KBX) as ZBX. pose proof (HZ KBI) as ZBI. pose proof (HZ KBE) as ZBE.
+  destruct (pcs s t); cbn [wfpc] in W; cbn [held held0 hk one] in ZX, ZI, ZE, ZDP, ZD, ZBX, ZBI, ZBE;
     repeat match goal with c : kont |- _ => destruct c end; cbn [hk hb] in *;
     repeat match goal with H : _ /\ _ |- _ => destruct H end; b_facts; try lia.
   all: try discriminate.
